@@ -118,6 +118,9 @@ func registerSDK(P *Program) {
 			if strings.TrimSpace(s) == "" {
 				return Tuple{&SliceV{}, &ErrV{Root: "sdk/empty-address", Msg: "empty address string is not allowed"}}
 			}
+			if s == strings.ToUpper(s) && s != strings.ToLower(s) {
+				s = strings.ToLower(s) // bech32 admits an all upper-case spelling of the same address
+			}
 			if !strings.HasPrefix(s, prefix) {
 				return Tuple{&SliceV{}, &ErrV{Root: "sdk/bad-address", Msg: "invalid bech32 prefix"}}
 			}
